@@ -68,7 +68,10 @@ def main(tier, seed):
     ]
     for r in runs:
         r['worker'] = replay_bf
-    return lpcheck.run_lp_check('C07', tier, seed, runs,
+    def post(rep, pool):
+        from . import m3real
+        m3real.run_archive(rep, 'C07', True)
+    return lpcheck.run_lp_check('C07', tier, seed, runs, post=post,
                                 rule='instances constructed by TLC, with and without -pc, one- and two-sided; all nine printed lines; '
                                      'non-trivial = at least one valid matching',
                                 nontrivial=lambda i: i['feasible'])
